@@ -161,6 +161,7 @@ def run(ctx, run):
     _shifts(ctx, run)
     _recursion(ctx, run)
     _references(ctx, run)
+    _page_sizes(ctx, run)
     for k, (flds, iv, why) in ARG_ASSUME.items():
         if k in ctx.arg_assume_used:
             run.assumptions.append("argument `%s` of %s() at its call in %s() is in %s: %s" % (k[2], k[1], k[0], list(iv), why))
@@ -732,3 +733,165 @@ def _references(ctx, run):
     from . import C10
     C10._pairing(ctx, run, "page", C10.PAGE_ACQ, C10.PAGE_REL, "cache_page", C10.MOVERS, 14)
     C10._pairing(ctx, run, "network", C10.NET_ACQ, C10.NET_REL, "cache_network", {}, 2)
+    # the in-place reuse of a victim's allocation needs `exactly one victim of exactly the needed size`
+    C10._put_page(ctx, run, ctx.prog.need("_vbi_cache_put_page", "src/cache.c"))
+
+
+# --------------------------------------------------------------------------------------
+# (g) variable-size cached pages: cache_page_size() allocates the `ext_lop` / `enh_lop` variant of
+# the page union only when a designation bit says the page has that part; every reader of that
+# part must be guarded by (a subset of) the same bits
+
+def _mask_of(f, node):
+    """(field name, mask) for `x->FIELD & C` / plain `x->FIELD` (mask None = all bits)."""
+    j = ex.skip(f, node)
+    e = f.exprs[j]
+    while e["k"] == "cast":
+        j = ex.skip(f, e["c"][0])
+        e = f.exprs[j]
+    if e["k"] == "bin" and e["op"] == "&":
+        for x, y in ((e["c"][0], e["c"][1]), (e["c"][1], e["c"][0])):
+            c = ex.const(f, y)
+            r = _mask_of(f, x)
+            if c is not None and r is not None and r[1] is None:
+                return r[0], c
+        return None
+    if e["k"] == "mem" and e.get("in") == "cache_page" and e["member"] in ("x28_designations", "x26_designations"):
+        return e["member"], None
+    return None
+
+
+def _designation_guards(f, node):
+    """{field: mask-or-None} from the atoms dominating `node` that say `designations (& M) != 0`."""
+    res = {}
+    for a in atoms.atoms_at(f, node):
+        if a.rel == "!=" and a.R is not None and a.R.const == 0 and a.L is not None and a.L.node is not None:
+            m = _mask_of(f, a.L.node)
+            if m is not None:
+                res[m[0]] = m[1] if m[0] not in res or res[m[0]] is None else (res[m[0]] & m[1] if m[1] is not None else res[m[0]])
+    return res
+
+
+def _page_sizes(ctx, run):
+    P = ctx.prog
+    cps = P.need("cache_page_size", "src/cache.c")
+    run.touch(cps)
+    # S: which designation test leads to which union member's size
+    size_mask = {}
+    for i, e in enumerate(cps.exprs):
+        if e["k"] == "sizeof" and e.get("uneval") is not None:
+            ue = cps.exprs[e["uneval"]] if isinstance(e.get("uneval"), int) else None
+            u = ex.pretty(cps, e["uneval"]) if ue is not None else ""
+            for part, fld in (("ext_lop", "x28_designations"), ("enh_lop", "x26_designations")):
+                if u.endswith("data." + part):
+                    g = _designation_guards(cps, i)
+                    if fld in g:
+                        size_mask[part] = (fld, g[fld])
+    run.floor("designation-dependent page sizes in cache_page_size", len(size_mask), 2)
+    # W: bits the decoder can set
+    wbits = {"x28_designations": 0, "x26_designations": 0}
+    for f in P.funcs:
+        if f.unit not in UNITS:
+            continue
+        for bid, i in flow.all_events(f):
+            e = f.exprs[i]
+            if e["k"] == "asg" and e["op"] == "|=":
+                l = f.exprs[ex.skip(f, e["c"][0])]
+                if l["k"] == "mem" and l.get("in") == "cache_page" and l["member"] in wbits:
+                    an = ctx.analysis(f)
+                    st = an.state_before_expr(i)
+                    if st is None:
+                        continue
+                    r = ex.skip(f, e["c"][1])
+                    re_ = f.exprs[r]
+                    while re_["k"] == "cast":
+                        r = ex.skip(f, re_["c"][0])
+                        re_ = f.exprs[r]
+                    bits = None
+                    if re_["k"] == "bin" and re_["op"] == "<<" and ex.const(f, re_["c"][0]) == 1:
+                        v = an.eval(st, re_["c"][1])
+                        vals = _case_values(f, i, re_["c"][1])
+                        if vals is not None:
+                            bits = 0
+                            for d in vals:
+                                if v[0] is None or v[0] <= d <= v[1]:
+                                    bits |= 1 << d
+                        elif None not in v and 0 <= v[0] and v[1] < 31:
+                            bits = 0
+                            for d in range(v[0], v[1] + 1):
+                                bits |= 1 << d
+                    if bits is None:
+                        v = an.eval(st, e["c"][1])
+                        bits = (1 << v[1].bit_length()) - 1 if v[1] is not None and v[0] is not None and v[0] >= 0 else 0xFFFFFFFF
+                    wbits[l["member"]] |= bits
+    run.note("designation bits the decoder can set: x28 %#x, x26 %#x; cache_page_size tests %s" % (
+        wbits["x28_designations"], wbits["x26_designations"],
+        {k: (v[0], hex(v[1]) if v[1] is not None else "!= 0") for k, v in size_mask.items()}))
+    # R: readers
+    n = 0
+    for f in P.funcs:
+        if f.unit not in UNITS or f.name == "cache_page_size":
+            continue
+        writes = any(e["k"] == "asg" and f.exprs[ex.skip(f, e["c"][0])]["k"] == "mem"
+                     and f.exprs[ex.skip(f, e["c"][0])].get("member") in wbits for e in f.exprs if e["k"] == "asg")
+        for i, e in enumerate(f.exprs):
+            if e["k"] != "mem" or e["member"] not in size_mask:
+                continue
+            if flow.elem_pos(f).get(i) is None:
+                continue
+            fld, smask = size_mask[e["member"]]
+            g = _designation_guards(f, i)
+            if fld not in g:
+                continue            # not a designation-guarded access (assembly buffer of full size)
+            n += 1
+            run.touch(f)
+            rmask = g[fld] if g[fld] is not None else wbits[fld]
+            eff_s = smask if smask is not None else 0xFFFFFFFF
+            key = "RF-TAB:%s:%s-guard" % (f.name, e["member"])
+            extra = rmask & wbits[fld] & ~eff_s
+            if extra:
+                run.violation("RF-TAB", key, "%s() reads data.%s when %s has any of the bits %#x, but cache_page_size() gives a cached "
+                              "page room for data.%s only for the bits %#x: with bit(s) %#x alone the read is past the end of the "
+                              "allocation" % (f.name, e["member"], fld, rmask, e["member"], eff_s, extra), ex.loc(f, i),
+                              witness={"reader_mask": rmask, "size_mask": eff_s, "settable_bits": wbits[fld]})
+            else:
+                run.holds("RF-TAB", key, "data.%s read under %s & %#x, a subset of the bits %#x for which cache_page_size() "
+                          "allocates it" % (e["member"], fld, rmask, eff_s), ex.loc(f, i))
+    run.floor("designation-guarded reads of variable page parts", n, 3)
+
+
+def _case_values(f, node, var):
+    """Values of the switch variable `var` (a local) for which the statement `node` is reached:
+    the labels of the innermost enclosing `switch (var)` from whose case blocks the statement's
+    block is reachable without re-entering the switch.  None when unknown (default label, no
+    switch)."""
+    v = f.exprs[ex.skip(f, var)]
+    while v["k"] == "cast":
+        v = f.exprs[ex.skip(f, v["c"][0])]
+    if v["k"] != "ref":
+        return None
+    pos = flow.elem_pos(f).get(node)
+    if pos is None:
+        return None
+    target = pos[0]
+    best = None
+    for bid in f.rpo():
+        t = f.blocks[bid].term
+        if not t or t.get("kind") != "SwitchStmt" or "cond" not in t:
+            continue
+        c = f.exprs[ex.skip(f, t["cond"])]
+        while c["k"] == "cast":
+            c = f.exprs[ex.skip(f, c["c"][0])]
+        if not (c["k"] == "ref" and c.get("name") == v.get("name")) or not flow.dominates(f, bid, target):
+            continue
+        vals = set()
+        ok = True
+        for succ, lab in f.edges(bid):
+            if target in flow.reach_from(f, succ, avoid=(bid,)):
+                if isinstance(lab, tuple) and lab[2] - lab[1] < 64:
+                    vals.update(range(lab[1], lab[2] + 1))
+                else:
+                    ok = False
+        if ok and vals:
+            best = vals          # rpo: later (inner) switches overwrite outer ones
+    return best
